@@ -28,7 +28,7 @@ BOUNDS = {
              "symbolic centre/radius for sphere_uv, torus radii, icosahedron, icosphere(0); ring apex defect measured for requested defects {0, 0.5, 2, 5.9, 7}; every generator called twice with the first result edited in between",
     "thorough": "E1 resolutions up to 6, icosphere(1) on the sphere (depth), cylinder vertices at the radius from the axis (depth)",
 }
-OUTSIDE = ("sphere_fibonacci surface (qhull), icosphere beyond one refinement, apex placement of ring() (float bisection on atan2); "
+OUTSIDE = ("the triangulation of sphere_fibonacci (qhull, compiled), icosphere beyond one refinement, apex placement of ring() (float bisection on atan2); "
            "E2 results are for the translated kernel (translator trusted, validated on the stated box)")
 ASSUMPTIONS = ["E2 verdicts are z3's, cross-checked with the cvc5 binary on the same SMT-LIB text (a disagreement is a harness error)",
                "resolutions are integers >= the generator's minimum (grid: 2, torus/cylinder/sphere: 3)", "radii are non-zero reals"]
@@ -421,6 +421,29 @@ def repeated_calls(sx):
     sx.check(s1[1] == s0[1] and s1[2:] == s0[2:], "a second call with the same arguments gives the same faces and attributes" + tag)
     ok = len(s1[0]) == len(s0[0]) and all(abs(a - b) <= 1e-12 for p, q in zip(s1[0], s0[0]) for a, b in zip(p, q))
     sx.check(ok, "a second call with the same arguments gives the same vertices" + tag)
+
+
+def fibonacci_cloud(sx):
+    """sphere_fibonacci without the qhull triangulation: n points on the sphere of the requested (symbolic) radius"""
+    import mouette as M
+    import mouette.procedural as P
+    n = 1 + sx.choice("n_pts", 6)
+    r = sx.real("radius")
+    sx.assume(r > 0)
+    tag = " [sphere_fibonacci, build_surface=False]"
+    try:
+        m = P.sphere_fibonacci(n, radius=r, build_surface=False)
+    except Exception as e:
+        sx.check(False, "generator raised" + tag, detail=repr(e))
+        return
+    sx.check(isinstance(m, M.mesh.PointCloud) and len(m.vertices) == n, "sphere_fibonacci(build_surface=False) is a cloud of exactly n_pts points" + tag)
+    for i in range(len(m.vertices)):
+        p = m.vertices[i]
+        # the direction of each point is computed in floating point (sqrt, sin, cos of concrete numbers): the coefficient of r^2
+        # is 1 up to rounding, so the obligation is stated with an explicit relative tolerance
+        d = p[0] * p[0] + p[1] * p[1] + p[2] * p[2] - r * r
+        sx.check(symx.And(d <= 1e-9 * r * r, d >= -1e-9 * r * r) if sx.symbolic else abs(d) <= 1e-9 * r * r,
+                 "fibonacci points lie at the radius from the origin" + tag)
 
 
 def ico_sphere(n_refine):
@@ -824,6 +847,7 @@ def obligations(tier):
         Ob("sphere-uv-radius", sphere_uv_e1([3] if q else [3, 4]), covers=COVERS, split=3, note="sphere_uv with symbolic centre and radius"),
         Ob("cylinder", cylinder_e1([3, 4, 5] if q else [3, 4, 5, 6, 8]), covers=COVERS, split=3, note="cylinder, capped and open"),
         Ob("polyhedra", polyhedra, covers=COVERS, split=2, note="fixed polyhedra and switch forwarding"),
+        Ob("fibonacci-cloud", fibonacci_cloud, covers=COVERS + ["mouette.procedural.shapes:sphere_fibonacci"], note="sphere_fibonacci point cloud, symbolic radius, n_pts <= 6"),
         Ob("repeated-calls", repeated_calls, covers=COVERS, split=2, note="each generator called twice, the first result edited in between"),
         Ob("icosahedron", ico_sphere(0), covers=COVERS, note="icosahedron with symbolic centre/radius"),
         Ob("rings", rings_e1([3, 4, 5] if q else [3, 4, 5, 6, 7], [1, 2]), covers=COVERS, split=4, note="ring / open ring / flat_ring topology and rim"),
